@@ -753,7 +753,7 @@ func genPipeWrites(r *rng, n int) []pWrite {
 
 func TestC05(t *testing.T) {
 	dir := outDir(t)
-	rep := newReport("C05", "black-box: a real Runtime on inmem under synctest with 1-3 probe Controllers/QControllers (weak/strong/destroy-ready/primary/mapped/mapped-destroy-ready inputs, by kind and by id, busy times 0..2s, registered before or after Run, cached kind or not, dynamic UpdateInputs), plus a real-time phase (outside synctest) registering a controller with slow watch set-up concurrently with a burst on several keys, "+
+	rep := newReport("C05", "black-box: a real Runtime on inmem under synctest with 1-3 probe Controllers/QControllers (weak/strong/destroy-ready/primary/mapped/mapped-destroy-ready inputs, by kind and by id, busy times 0..2s, registered before or after Run, cached kind or not, dynamic UpdateInputs), plus real-time phases (outside synctest): registering a controller with slow watch set-up concurrently with a burst on several keys, and two controllers adding an input on the same fresh kind while its watch is being set up, "+
 		"random write histories with bursts on one key and pre-existing resources; at every quiescence (all virtual timers elapsed, all goroutines blocked) the monitor requires that each controller started the required reconcile after the latest change of every resource it must be woken for (global sequence numbers); "+
 		"trigger table: isolated writes, observed wake-ups / queue jobs per controller compared with the model's r_trigger / q_jobs; non-trivial = pre-existing contents, late registration, busy controller or dynamic input; distinct by scenario")
 
@@ -861,11 +861,30 @@ func TestC05(t *testing.T) {
 		}
 	}
 
+	if os.Getenv("VERIF_REPLAY") == "" {
+		// real-time phase: two controllers add an input on the same, not yet watched kind while its watch is being set up
+		for range tier(6, 60) {
+			cases = append(cases, c05Case{Kind: "addrace", Sc: pScenario{SlowWatch: int64(pick(newRng(seed(), "C05race"), []time.Duration{90, 150}) * time.Millisecond)}})
+		}
+	}
+
 	tf := newCoqFile("C05_trigger_table", []string{"Store", "DepDB", "Pipeline", "PipelineCheck"}, "trow", "trigger_mismatches")
 
 	var jl []any
 
 	for i, c := range cases {
+		if c.Kind == "addrace" {
+			key, _ := json.Marshal(c)
+			rep.count(string(key), true)
+			rep.hit(c.Kind)
+
+			for _, p := range runConcurrentInputAdd(t, time.Duration(c.Sc.SlowWatch)) {
+				rep.violateKey(i, "lost-wakeup:concurrent-input-add", p, map[string]any{"case": c})
+			}
+
+			continue
+		}
+
 		if c.Kind == "regburst" {
 			key, _ := json.Marshal(c)
 			rep.count(string(key), true)
@@ -944,6 +963,103 @@ func lostWakeupKey(sc pScenario, problem string) string {
 // running, a second controller whose two fresh kinds take slowWatch to set up is registered concurrently with a
 // burst of writes on several keys, then everything goes quiet.  Returns the keys never reconciled after their
 // latest change within the grace period.
+// runConcurrentInputAdd: the runtime is running; controller p1 adds an input on a fresh kind (its watch takes slowWatch
+// to establish); while that is in flight controller p2 adds an input on the same kind. Once p2's UpdateInputs has
+// returned the input is declared: a resource of that kind committed afterwards must make p2 reconcile.
+func runConcurrentInputAdd(t *testing.T, slowWatch time.Duration) (problems []string) {
+	ctx, cancel := context.WithCancel(context.Background())
+	defer cancel()
+
+	st := state.WrapCore(namespaced.NewState(inmem.Build))
+	book := &pBook{lastStart: map[string]map[string]int64{}, starts: map[string][]string{}}
+
+	var running atomic.Bool
+
+	rt, err := cruntime.NewRuntime(&slowWatchState{State: st, delay: slowWatch, running: &running}, zap.NewNop())
+	if err != nil {
+		t.Fatal(err)
+	}
+
+	p1 := &pipeProbeR{name: "p1", book: book}
+	p2 := &pipeProbeR{name: "p2", book: book}
+
+	for _, p := range []*pipeProbeR{p1, p2} {
+		if err := rt.RegisterController(p); err != nil {
+			t.Fatal(err)
+		}
+	}
+
+	done := make(chan error, 1)
+
+	go func() { done <- rt.Run(ctx) }()
+
+	rtOf := func(p *pipeProbeR) controller.Runtime {
+		for {
+			p.mu.Lock()
+			r := p.rt
+			p.mu.Unlock()
+
+			if r != nil {
+				return r
+			}
+
+			time.Sleep(time.Millisecond)
+		}
+	}
+
+	r1, r2 := rtOf(p1), rtOf(p2)
+
+	running.Store(true)
+
+	in := []controller.Input{{Namespace: "n1", Type: "V", Kind: controller.InputWeak}}
+	first := make(chan error, 1)
+
+	go func() { first <- r1.UpdateInputs(in) }()
+
+	time.Sleep(slowWatch / 3)
+
+	if err := r2.UpdateInputs(in); err != nil {
+		t.Fatal(err)
+	}
+
+	// p2's input is declared now
+	if err := st.Create(ctx, newRes("n1", "V", "r1", "p0")); err != nil {
+		t.Fatal(err)
+	}
+
+	committed := book.seq.Add(1)
+
+	if err := <-first; err != nil {
+		t.Fatal(err)
+	}
+
+	deadline := time.Now().Add(slowWatch + 10*time.Second)
+
+	for {
+		book.mu.Lock()
+		woke := book.lastStart["p2"]["*"] > committed
+		book.mu.Unlock()
+
+		if woke {
+			break
+		}
+
+		if time.Now().After(deadline) {
+			problems = append(problems, fmt.Sprintf("lost-wakeup: controller \"p2\" added a weak input on n1/V (UpdateInputs returned) while another controller's identical input was still being set up (watch set-up %v); "+
+				"V/r1 was created afterwards and p2 was never reconciled", slowWatch))
+
+			break
+		}
+
+		time.Sleep(5 * time.Millisecond)
+	}
+
+	cancel()
+	<-done
+
+	return problems
+}
+
 func runRegistrationBurst(t *testing.T, slowWatch time.Duration, nKeys int, qSecond bool) (problems []string) {
 	ctx, cancel := context.WithCancel(context.Background())
 	defer cancel()
